@@ -168,6 +168,14 @@ def run_standin(pid, tier, timeout=1500):
     return [Result(r.pop('name'), r.pop('kind'), r.pop('verdict'), **r) for r in out]
 
 
+def _fmatch(pat, name):
+    """Finding patterns: plain prefix, or 're:<regex>' searched in the obligation name."""
+    if pat.startswith('re:'):
+        import re
+        return re.search(pat[3:], name) is not None
+    return name.startswith(pat)
+
+
 def load_findings():
     p = os.path.join(VERIF, 'known_findings.json')
     if not os.path.exists(p):
@@ -187,8 +195,8 @@ def finish(pid, tier, results, t0, meta):
 
     suppressed = set()
     for f in findings:
-        fulls = [r for r in proofs if r['name'].startswith(f['obligation'])]
-        ress = [r for r in proofs if r['name'].startswith(f['residual'])]
+        fulls = [r for r in proofs if _fmatch(f['obligation'], r['name'])]
+        ress = [r for r in proofs if _fmatch(f['residual'], r['name'])]
         if not fulls or not ress:
             if any(r['verdict'] in ('unsupported', 'unknown') for r in proofs):
                 continue      # the cell was not generated because its task is undecided
